@@ -52,6 +52,7 @@ type Profile struct {
 	Replica     bool // execute every history twice and compare the app hashes
 	Imported    bool // tenants and records (multi-recipient, weighted) imported through genesis
 	Erc20       bool // a registered ERC-20 token pair; most tenants use its denomination and are paid out through ConvertERC20
+	Many        bool // imported: one or two tenants with 110-150 pending records between them (long queues, paging limits)
 }
 
 type pendRec struct {
@@ -81,6 +82,7 @@ type genState struct {
 	nftOwner map[uint64]int
 	nftAddr  string
 	jailed   map[int]bool
+	bigTenants []uint64
 	followUps []Event // emitted right after the next begin-block: the actions that would profit from a shadow write
 }
 
@@ -115,7 +117,7 @@ func GenHistory(seed uint64, idx int, p Profile) History {
 		nv = 6 + r.Intn(2) // the chain runs with constant power 1 per validator: shares of 1/6 need six of them
 	}
 	g.nVals = nv
-	gen := HGenesis{NAccts: nv + 5, Funds: 1000000, Nft: p.Internal, OracleFee: p.OracleFee, BigFunds: p.Adversarial && r.Chance(50), Erc20: p.Erc20}
+	gen := HGenesis{NAccts: nv + 5, Funds: 1000000, Nft: p.Internal, OracleFee: p.OracleFee, BigFunds: p.Adversarial && r.Chance(50) || p.Imported && !p.Many && r.Chance(30), Erc20: p.Erc20}
 	for i := 0; i < nv; i++ {
 		gen.Powers = append(gen.Powers, int64(1+r.Intn(5)))
 		pb := ""
@@ -170,6 +172,10 @@ func GenHistory(seed uint64, idx int, p Profile) History {
 // weights (zero, huge, summing beyond 2^32), null addresses, unknown payout methods
 func (g *genState) importedGenesis() {
 	r := g.r
+	if g.p.Many {
+		g.manyGenesis()
+		return
+	}
 	nt := 1 + r.Intn(2)
 	weights := []uint32{0, 1, 1, 2, 3, 7, 1 << 31, 1<<32 - 1, 1 << 30}
 	for t := 1; t <= nt; t++ {
@@ -199,6 +205,11 @@ func (g *genState) importedGenesis() {
 			amt := fmt.Sprint(1 + r.Intn(100000))
 			if r.Chance(10) {
 				amt = "340282366920938463463374607431768211455" // 2^128-1: amount * weight still fits 256 bits
+			}
+			if g.h.Genesis.BigFunds && r.Chance(50) {
+				// whole coins of an 18-decimal denomination: a share that is off in the 18th digit shows in base units
+				amt = []string{"10000000000000000000", "3000000000000000007", "1000000000000000000000", "999999999999999999999"}[r.Intn(4)]
+				g.bigTenants = append(g.bigTenants, uint64(t))
 			}
 			created := uint64(r.Intn(3))
 			if r.Chance(15) {
@@ -383,6 +394,42 @@ func (g *genState) settlementMsg() *Msg {
 			adm = t.admins[r.Intn(len(t.admins))]
 		}
 		return &Msg{Kind: "remove_admin", Sender: g.senderFor(t), Tid: t.id, Admin: adm, AdminUpper: r.Chance(10), SenderUpper: r.Chance(6)}
+	}
+}
+
+// long queues: 110-150 single-recipient records of small amounts, all created before the import height, short periods;
+// the treasuries are topped up in steps so that a payout in the middle of a queue fails for lack of funds
+func (g *genState) manyGenesis() {
+	r := g.r
+	nt := 1 + r.Intn(2)
+	total := 110 + r.Intn(41)
+	for t := 1; t <= nt; t++ {
+		adm := g.user()
+		denom := tenantDenoms[r.Intn(2)]
+		period := uint64(1 + r.Intn(3))
+		g.h.Genesis.Tenants = append(g.h.Genesis.Tenants, GenTenant{Id: uint64(t), Admins: []int{adm}, Denom: denom, Period: period, Method: "native"})
+		g.tenants = append(g.tenants, genTenant{id: uint64(t), admins: []int{adm}, denom: denom, period: period})
+		n := total / nt
+		if nt == 2 && t == 1 {
+			n = 52 + r.Intn(total-104+1) // both queues longer than 50
+		} else if nt == 2 {
+			n = total - (len(g.h.Genesis.Utxrs))
+		}
+		id := uint64(r.Intn(2))
+		for k := 0; k < n; k++ {
+			g.reqCtr++
+			req := fmt.Sprintf("g%d", g.reqCtr)
+			amt := fmt.Sprint(1 + r.Intn(20))
+			if r.Chance(3) {
+				amt = fmt.Sprint(500 + r.Intn(1000)) // the one the treasury will be short of
+			}
+			recips := []GenRecip{{Addr: MakeAcct(g.user()).Hex().Hex(), Weight: 1}}
+			u := GenUtxr{Tid: uint64(t), Id: id, Req: req, Recips: recips, Denom: denom, Amount: amt,
+				Chain: g.h.Genesis.Chains[0], Contract: extContracts[r.Intn(len(extContracts))], Tok: []string{"0x1", "0x2", "0x3"}[r.Intn(3)], Created: uint64(r.Intn(2))}
+			g.h.Genesis.Utxrs = append(g.h.Genesis.Utxrs, u)
+			g.recs = append(g.recs, &pendRec{tid: uint64(t), req: req, chain: u.Chain, contract: u.Contract, tok: u.Tok, created: int64(u.Created), external: true})
+			id++
+		}
 	}
 }
 
@@ -598,6 +645,21 @@ func (g *genState) block() {
 		for _, t := range g.tenants {
 			if r.Chance(80) {
 				envs = append(envs, Env{Kind: "bank_send", From: g.user(), To: -1 - int(t.id), Denom: t.denom, Amount: fmt.Sprint(1 + r.Intn(300000))})
+			}
+		}
+		for _, tid := range g.bigTenants {
+			for _, t := range g.tenants {
+				if t.id == tid && r.Chance(80) {
+					envs = append(envs, Env{Kind: "bank_send", From: g.user(), To: -1 - int(t.id), Denom: t.denom, Amount: "5000000000000000000000"})
+				}
+			}
+		}
+	}
+	if g.p.Many && g.height <= 6 {
+		// funds arrive in steps: a few hundred units per block and tenant, never enough for the expensive record at once
+		for _, t := range g.tenants {
+			if r.Chance(75) {
+				envs = append(envs, Env{Kind: "bank_send", From: g.user(), To: -1 - int(t.id), Denom: t.denom, Amount: fmt.Sprint(50 + r.Intn(400))})
 			}
 		}
 	}
